@@ -11,7 +11,26 @@ HOOK_COMMITS = ["5384d917", "0f73256d", "53d65f90", "1047dece"]
 
 NOT_CLAIMED = {}
 
+LEDGER_RULE = ("ledger stream: per case a fresh canister (network in {regtest x2, mainnet, testnet}, threshold in {1,1,2,2,3,4,6,144}, "
+               "difficulty mode in {equal, small, heavy-vs-light, ties}), then 8-40 (quick) / 20-120 (thorough) random steps: "
+               "push a transaction-valid block on a random alive parent (biased to tips / near the anchor; spends of stable and unstable outputs, "
+               "same-block spends, re-confirmation of another fork's transaction, zero-value/OP_RETURN/non-standard/oversized scripts, prefix-pair addresses), "
+               "ingestion rounds with unlimited or 0-12 step budgets, and query batches (all pages followed with page size 1/2/3/5/1000, every c up to length+2, "
+               "header ranges up to tip+2, fees, bookkeeping snapshot, stable digest) with the specification lines ledgerat/bestat/cutat/sumat. "
+               "A case is non-trivial if it pushed >= 3 blocks; distinct by the hash of (network, threshold, mode, parent choices, budgets).")
+
 PROPS = {
+    "C02": {
+        "streams": [{"name": "ledger", "quick": 160, "thorough": 1600}],
+        "rule": LEDGER_RULE,
+        "explanation": "theorems: main_chain_by_difficulty = first maximal (difficulty, length) root-to-leaf path for every tree; "
+                       "info / unfiltered get_utxos / get_block_headers / fee cache refer to its last block. Spec line `bestat` compares "
+                       "the tips and the balance of all endpoints with the oracle on every generated state.",
+        "technique": "Lean 4 theorems (mutual structural induction over the block tree: algorithm = max-over-leaf-paths oracle) + differential correspondence canister crate vs compiled Lean model and oracle",
+        "level_text": "Machine-checked: mainChain = bestPath for all trees and difficulty assignments (unbounded), twin length function, and each endpoint's tip in terms of bestPath; tie to the code by the ledger stream (model lines and oracle lines).",
+        "level_note": "Trusted: Lean kernel, axioms as audited, harness+hooks, translator. The balance clause (balance = ledger sum at the best tip) is validated by the `bestat` oracle line and proved only as far as C05/C01 go. Native debug build, not wasm.",
+        "assumptions": ["blocks are fed through unstable_blocks::push with mock difficulties (validation is covered by C10-C12)"],
+    },
     "C17": {
         "technique": "Lean 4 theorems (decision = quorum spec, Perm-invariance, latest-round-only) + differential correspondence watchdog crate vs compiled Lean model",
         "level_text": "Machine-checked theorems over the Lean model of median/calculate_height_target/compare/calculate_target/storage for all height lists, configurations and orders (no bound); the model is tied to the watchdog crate by a differential stream that includes an exhaustive palette sub-space per target configuration.",
